@@ -76,7 +76,11 @@ def run(tier, seed):
         # systematic scripted clients: for the atoms of rank 0..2 every combination of "start delayed 0 / 1 / 2 times by 2",
         # "ends delayed once or never", "no failure or the failure of one atom at tick 3 / 6 / 9 / 12"
         import itertools
-        scripted = (pressure[:3] if tier == 'quick' else pressure[:6]) + [p for p in problems if p[0].startswith('execution')][:1 if tier == 'quick' else 3]
+        slack = [p for p in pressure if p[0].startswith('fe_slack')]
+        line = [p for p in pressure if p[0].startswith('fe_line')]
+        early = [p for p in pressure if p[0].startswith('fe_early')]
+        early_q = [p for p in early if p[0] in ('fe_early_impulse_4_fact_class',)]
+        scripted = ((slack[:2] + line[:1] + early_q) if tier == 'quick' else (slack + line[:4] + early[::3])) + [p for p in problems if p[0].startswith('execution')][:1 if tier == 'quick' else 3]
         for name, files in scripted:
             k = 0
             for sd in itertools.product((0, 1, 2), repeat=3):
